@@ -122,7 +122,7 @@ PROPS = {
         "assumptions": ["journals with two prices for one commodity pair on one day are not generated (excluded by the property)"],
     },
     "C03": {
-        "lean": ["Knut.Properties.C03", "Knut.Properties.C03Bound", "Knut.Properties.C03Bridge", "Knut.Properties.C03Window", "Knut.Properties.C03Report", "Knut.Properties.C03Command", "Knut.Properties.C03Modes", "Knut.Properties.C03Flows", "Knut.FactsAgree.TransProcess", "Knut.FactsAgree.TransQuery", "Knut.FactsAgree.TransMapping", "Knut.FactsAgree.TransSwapType", "Knut.FactsAgree.TransBalanceCmd", "Knut.FactsAgree.TransProcessAll", "Knut.FactsAgree.TransProcessAllCheck", "Knut.FactsAgree.TransProcessAllBalance"],
+        "lean": ["Knut.Properties.C03", "Knut.Properties.C03Bound", "Knut.Properties.C03Bridge", "Knut.Properties.C03Window", "Knut.Properties.C03Report", "Knut.Properties.C03Command", "Knut.Properties.C03Modes", "Knut.Properties.C03Flows", "Knut.FactsAgree.TransProcess", "Knut.FactsAgree.TransQuery", "Knut.FactsAgree.TransMapping", "Knut.FactsAgree.TransSwapType", "Knut.FactsAgree.TransBalanceCmd", "Knut.FactsAgree.TransProcessAll", "Knut.FactsAgree.TransProcessAllCheck", "Knut.FactsAgree.TransProcessAllBalance", "Knut.Properties.C03Go"],
         "level": "proof",
         "claim": "Proof + full correspondence + exact monitors. Spec.mtm (Spec/MTM.lean) = sum over commodities of summed quantity x Prices.normalize price of the declarations up to D, exact. "
                  "Proved from the directives to the CELLS of the rendered table for every valued report mode except a --commodity filter: (a) C03_command_cell (Properties/C03Report.lean): cumulative per-account rows, "
